@@ -82,3 +82,176 @@ pub fn schedule_well_formed(domain_size: usize, options: &FriOptions) -> bool {
     // remainder polynomial has d / blowup coefficients
     d >= options.blowup_factor() && d / options.blowup_factor() >= 1
 }
+
+// HAND-WRITTEN FRI PROVER (partitioned commitment layout, choice of row coordinates)
+// ================================================================================================
+
+/// which x coordinate the prover attributes to row r of a layer when it folds
+#[derive(Clone, Copy, Debug, PartialEq)]
+pub enum RowCoord {
+    /// offset * g^r: the position of the row in the folded domain (what the protocol defines)
+    DomainPosition,
+    /// offset * g^index(r): the leaf index that holds the row in the partitioned layout (an
+    /// adversary betting on a verifier that confuses the two)
+    LeafIndex,
+}
+
+pub struct ManualProof<H: ElementHasher> {
+    pub proof: FriProof,
+    pub commitments: Vec<H::Digest>,
+}
+
+fn fold_rows<B: Fld, E: FieldElement<BaseField = B>, const N: usize>(rows: &[[E; N]], idx: &[usize], coord: RowCoord, alpha: E) -> Vec<E> {
+    match coord {
+        RowCoord::DomainPosition => winter_fri::folding::apply_drp(rows, B::GENERATOR, alpha),
+        RowCoord::LeafIndex => {
+            // apply_drp gives the row in slot s the coordinate offset * g^s: put row r into slot index(r)
+            let mut scratch = rows.to_vec();
+            for (r, row) in rows.iter().enumerate() {
+                scratch[idx[r]] = *row;
+            }
+            let res = winter_fri::folding::apply_drp(&scratch, B::GENERATOR, alpha);
+            (0..rows.len()).map(|r| res[idx[r]]).collect()
+        },
+    }
+}
+
+/// inverse of `fold_rows` for every challenge at once: given N functions h_0..h_{N-1} on the folded
+/// domain, the rows G(r + l*rows) = sum_j (x_r * w^l)^j h_j(r) fold to sum_j alpha^j h_j(r)
+fn unfold_rows<B: Fld, E: FieldElement<BaseField = B>, const N: usize>(hs: &[Vec<E>], idx: &[usize], coord: RowCoord) -> Vec<E> {
+    let rows = hs[0].len();
+    let g = B::get_root_of_unity((rows * N).ilog2());
+    let w = B::get_root_of_unity(N.ilog2());
+    let mut out = vec![E::ZERO; rows * N];
+    for r in 0..rows {
+        let e = if coord == RowCoord::LeafIndex { idx[r] } else { r };
+        let x = B::GENERATOR * g.exp_vartime(B::pi(e as u128));
+        let mut wl = B::ONE;
+        for l in 0..N {
+            let xl = E::from(x * wl);
+            let mut acc = E::ZERO;
+            let mut pw = E::ONE;
+            for h in hs.iter().take(N) {
+                acc += pw * h[r];
+                pw *= xl;
+            }
+            out[r + l * rows] = acc;
+            wl *= w;
+        }
+    }
+    out
+}
+
+fn leaf_indexes(rows: usize, layer_domain: usize, fold: usize, parts: usize) -> Vec<usize> {
+    let all: Vec<usize> = (0..rows).collect();
+    winter_fri::utils::map_positions_to_indexes(&all, layer_domain, fold, parts)
+}
+
+/// commit phase and query phase written out by hand for folding factor N; rows of every layer are
+/// stored at the leaves of the layout with 2^log_parts partitions
+pub fn manual_prove_n<B: Fld, E: FieldElement<BaseField = B>, H: ElementHasher<BaseField = B>, const N: usize>(
+    f0: &[E],
+    options: &FriOptions,
+    positions: &[usize],
+    log_parts: u8,
+    coord: RowCoord,
+) -> Option<ManualProof<H>> {
+    use winter_crypto::{Hasher, MerkleTree, RandomCoin};
+    let parts = 1usize << log_parts;
+    let layers = options.num_fri_layers(f0.len());
+    let mut coin = DefaultRandomCoin::<H>::new(&[]);
+    let mut cur = f0.to_vec();
+    let mut commitments = Vec::new();
+    let mut stored: Vec<(Vec<[E; N]>, MerkleTree<H>, Vec<usize>)> = Vec::new();
+    for _ in 0..layers {
+        let rows: Vec<[E; N]> = winter_utils::transpose_slice(&cur);
+        if parts > rows.len() {
+            return None;
+        }
+        let idx = leaf_indexes(rows.len(), cur.len(), N, parts);
+        let mut leaves = vec![<H as Hasher>::Digest::default(); rows.len()];
+        for (r, row) in rows.iter().enumerate() {
+            leaves[idx[r]] = H::hash_elements(row);
+        }
+        let tree = MerkleTree::<H>::new(leaves).ok()?;
+        commitments.push(*tree.root());
+        coin.reseed(*tree.root());
+        let alpha: E = coin.draw().ok()?;
+        cur = fold_rows::<B, E, N>(&rows, &idx, coord, alpha);
+        stored.push((rows, tree, idx));
+    }
+    // remainder: coefficients of the last layer, truncated like FriProver does
+    let inv_twiddles = fft::get_inv_twiddles::<B>(cur.len());
+    let mut rem = cur.clone();
+    fft::interpolate_poly_with_offset(&mut rem, &inv_twiddles, B::GENERATOR);
+    rem.truncate((cur.len() / options.blowup_factor()).max(1));
+    commitments.push(H::hash_elements(&rem));
+    // query phase
+    let mut bytes = vec![layers as u8];
+    let mut pos = positions.to_vec();
+    let mut dsize = f0.len();
+    for (rows, tree, idx) in &stored {
+        pos = winter_fri::folding::fold_positions(&pos, dsize, N);
+        let leaf_pos: Vec<usize> = pos.iter().map(|&p| idx[p]).collect();
+        let proof = tree.prove_batch(&leaf_pos).ok()?;
+        let mut values = Vec::new();
+        for &p in &pos {
+            for e in rows[p].iter() {
+                e.write_into(&mut values);
+            }
+        }
+        let paths = proof.serialize_nodes();
+        bytes.extend_from_slice(&(values.len() as u32).to_le_bytes());
+        bytes.extend_from_slice(&values);
+        bytes.extend_from_slice(&(paths.len() as u32).to_le_bytes());
+        bytes.extend_from_slice(&paths);
+        dsize /= N;
+    }
+    let mut rb = Vec::new();
+    for e in &rem {
+        e.write_into(&mut rb);
+    }
+    bytes.extend_from_slice(&(rb.len() as u16).to_le_bytes());
+    bytes.extend_from_slice(&rb);
+    bytes.push(log_parts);
+    let proof = FriProof::read_from_bytes(&bytes).ok()?;
+    Some(ManualProof { proof, commitments })
+}
+
+pub fn manual_prove<B: Fld, E: FieldElement<BaseField = B>, H: ElementHasher<BaseField = B>>(f0: &[E], options: &FriOptions, positions: &[usize], log_parts: u8, coord: RowCoord) -> Option<ManualProof<H>> {
+    match options.folding_factor() {
+        2 => manual_prove_n::<B, E, H, 2>(f0, options, positions, log_parts, coord),
+        4 => manual_prove_n::<B, E, H, 4>(f0, options, positions, log_parts, coord),
+        8 => manual_prove_n::<B, E, H, 8>(f0, options, positions, log_parts, coord),
+        _ => manual_prove_n::<B, E, H, 16>(f0, options, positions, log_parts, coord),
+    }
+}
+
+/// a function on the whole domain that every sequence of `layers` folds under the coordinate
+/// function `coord` (with any challenges) turns into a polynomial with `rem_coeffs` coefficients:
+/// N^layers random polynomials on the last domain, unfolded `layers` times
+pub fn unfolded_function<B: Fld, E: FieldElement<BaseField = B>>(rng: &mut crate::prng::Rng, domain: usize, options: &FriOptions, log_parts: u8, coord: RowCoord, rem_coeffs: usize) -> Option<Vec<E>> {
+    fn go<B: Fld, E: FieldElement<BaseField = B>, const N: usize>(rng: &mut crate::prng::Rng, domain: usize, layers: usize, parts: usize, coord: RowCoord, rem_coeffs: usize) -> Option<Vec<E>> {
+        let last = domain / N.pow(layers as u32);
+        let mut level: Vec<Vec<E>> = (0..N.pow(layers as u32)).map(|_| evaluate::<B, E>(&crate::gen::rand_vec::<B, E>(rng, rem_coeffs), last)).collect();
+        let mut size = last;
+        for _ in 0..layers {
+            let rows = size;
+            if parts > rows {
+                return None;
+            }
+            let idx = leaf_indexes(rows, rows * N, N, parts);
+            level = level.chunks(N).map(|hs| unfold_rows::<B, E, N>(hs, &idx, coord)).collect();
+            size *= N;
+        }
+        level.pop()
+    }
+    let layers = options.num_fri_layers(domain);
+    let parts = 1usize << log_parts;
+    match options.folding_factor() {
+        2 => go::<B, E, 2>(rng, domain, layers, parts, coord, rem_coeffs),
+        4 => go::<B, E, 4>(rng, domain, layers, parts, coord, rem_coeffs),
+        8 => go::<B, E, 8>(rng, domain, layers, parts, coord, rem_coeffs),
+        _ => go::<B, E, 16>(rng, domain, layers, parts, coord, rem_coeffs),
+    }
+}
